@@ -46,7 +46,7 @@ def pipeline(ctx, cases_by=None):
         obs = ctx.run_exec("body", cases, "read")
         ctx.tlc_trace("Body_Trace.tla", "Body_Trace.cfg", obs, "read")
         # every constructor that takes a text with an empty and a non-empty one, caller-built elements
-        cases = ctx.tlc_gen("Body_MC.tla", gencfg(ctx, "gen_txt.cfg", TEXTS, 3 if q else 4, txt=("tok", "empty"), idx=(0, 1)), "txt")
+        cases = ctx.tlc_gen("Body_MC.tla", gencfg(ctx, "gen_txt.cfg", TEXTS, 3, txt=("tok", "empty"), idx=(0, 1) if q else ()), "txt")
         obs = ctx.run_exec("body", cases, "txt")
         ctx.tlc_trace("Body_Trace.tla", "Body_Trace.cfg", obs, "txt")
         d = 12 if q else 24
